@@ -192,6 +192,14 @@ def discharge(F, site):
     if psc.is_index_call(n) and len(args) == 2:
         recv, idx = args
         r = psc.unref(recv)
+        # v[v.len() - k ..]: the tail that starts k elements before the end (the subtraction is its own, separately discharged, site)
+        ix = strip(idx)
+        if ix[0] == 'agg' and str(ix[1]).endswith('RangeFrom') and ix[3]:
+            st_ = strip(ix[3][0])
+            if st_[0] == 'checked':
+                st_ = ('binop', st_[1], st_[2], st_[3])
+            if st_[0] == 'binop' and st_[1] == 'Sub' and strip(st_[2]) == ('len', r):
+                return 'D2', 'the slice starts at len() - k of the same vector, hence within it'
         for f in facts:
             # idx < recv.len()  /  idx >= len -> return
             for lo, hi in (((f[1], f[2]) if f[0] == 'Lt' else (f[2], f[1]) if f[0] == 'Gt' else (None, None)),):
@@ -621,6 +629,7 @@ def assertion_infeasible(F, site):
 
 
 _CUR_F = [None]
+_ALL_SITES = [None]
 
 
 def path_discharge(F, site):
@@ -1312,10 +1321,60 @@ def developer_assertion(F, s):
     the next turn of an enclosing loop or the end of the function (where an assertion states the safety condition of unchecked
     code - VM::pop, GC::mark - it must be proven, not assumed)."""
     mac = macro_of(s['span'])
-    if mac not in ('debug_assert', 'debug_assert_eq', 'debug_assert_ne'):
-        return None
     fn = s['f']
     from rules.unsafe_inv import user_site
+    if mac not in ('debug_assert', 'debug_assert_eq', 'debug_assert_ne'):
+        # a machine check inside a helper that is new and is only ever called from the condition of a debug assertion
+        # (`debug_assert!(self.accounts_balance())`): it is evaluated as part of that condition
+        inl = fn.blocks[s['block']].get('inl') or ()
+        for h in inl:
+            calls_ = [bl for bl in fn.blocks if bl['term'].get('inl_call') == h]
+            if not calls_:
+                continue
+            # what the helper returned (the locals its spliced `return`s assign) must feed nothing but the test of a debug
+            # assertion: the switch right before an assertion's panic
+            rets = {st['place']['local'] for bl in fn.blocks for st in bl['stmts'] if st.get('inl_ret') == h}
+            from rules.shared import LocalFlow
+            lf = LocalFlow(fn)
+            fed = set()
+            for l_ in rets:
+                fed |= lf.forward(l_)
+            das = [s2 for s2 in (_ALL_SITES[0] or []) if s2['f'] is fn and s2['kind'] == 'call' and macro_of(s2['span']) in ('debug_assert', 'debug_assert_eq', 'debug_assert_ne')]
+            tests = set()
+            for s2 in das:
+                cur_ = s2['block']
+                for _ in range(30):
+                    pr_ = fn.pred(cur_)
+                    if len(pr_) != 1:
+                        break
+                    if fn.term(pr_[0])['k'] == 'switch':
+                        l2 = op_base_local(fn.term(pr_[0]).get('op'))
+                        if l2 in fed:
+                            tests.add((s2['span'].get('line'), pr_[0]))
+                        break
+                    cur_ = pr_[0]
+            other_uses = [b_ for b_ in range(len(fn.blocks)) if fn.term(b_)['k'] == 'switch' and op_base_local(fn.term(b_).get('op')) in fed and b_ not in {tb for _, tb in tests}]
+            if tests and not other_uses:
+                calls_ = [bl for bl in calls_]
+                for bl in calls_:
+                    bl['term'].setdefault('_da_lines', sorted({ln for ln, _ in tests}))
+            macs_ = ['debug_assert' if (tests and not other_uses) else None]
+            if all(m_ in ('debug_assert', 'debug_assert_eq', 'debug_assert_ne') for m_ in macs_):
+                # pure helper: no call in it takes a mutable reference
+                for b_, t_ in fn.calls():
+                    if h in (fn.blocks[b_].get('inl') or ()):
+                        for a_ in t_['args']:
+                            l_ = op_base_local(a_)
+                            if l_ is not None and fn.local_ty(l_).startswith('&') and ' mut ' in fn.local_ty(l_)[:24]:
+                                return None
+                # the assertions it serves must themselves be acceptable
+                lines_ = {ln for ln, _ in tests}
+                outer = [s2 for s2 in _ALL_SITES[0] if s2['f'] is fn and s2['kind'] == 'call' and macro_of(s2['span']) in ('debug_assert', 'debug_assert_eq', 'debug_assert_ne')
+                         and s2['span'].get('line') in lines_] if _ALL_SITES[0] else []
+                if outer and all(developer_assertion(F, s2) for s2 in outer):
+                    return 'DA', 'a machine check inside a helper that only evaluates the condition of a debug assertion: part of that ASSUMPTION'
+                return None
+        return None
     if fn.j.get('unsafe'):
         return None
     # what the assertion could be the safety condition of: the code that runs after it held, up to the next turn of an enclosing
@@ -1371,6 +1430,8 @@ def developer_assertion(F, s):
 def verdict_for(ctx, s, rows=None, cache=None):
     """(ok, text) for one panic site: D0-D2 local discharge, host-I/O class, D3 table, D4"""
     F = ctx.facts()
+    if _ALL_SITES[0] is None:
+        _ALL_SITES[0] = psc.census(ctx)
     rows = rows if rows is not None else d3_table(ctx)
     cache = cache if cache is not None else ctx.__dict__.setdefault('_d3cache', {})
     fn = s['f']
